@@ -253,6 +253,8 @@ impl Property for C22 {
                 }
             }
         }
+        // (the archive is kept in the replay file: it is signed with per-run credentials)
+        let cur_archive = rc.artefact("archive", || cur_archive.clone());
         // faulted variant: damage the last archive on the disk, restore must fail or be faithful
         let n_faults = if rc.tier == Tier::Quick { 12 } else { 30 };
         for k in 0..n_faults {
@@ -269,7 +271,7 @@ impl Property for C22 {
             }
             out.evals += 1;
             out.fault(f.kind());
-            out.keys.push(hash_str(&format!("{tag}|{}|{}", g.title, f.describe())));
+            out.keys.push(hash_str(&format!("{tag}|{}|fault{k}", g.title)));
             let Some(m) = f.apply(&cur_archive) else {
                 out.probe("damaged-archive-fault-was-a-no-op");
                 continue;
